@@ -711,7 +711,22 @@ def write_scripts(path, g, paths, proj_keys, header_keys=None, id_prefix="p"):
 # --------------------------------------------------------------------------------------------
 # building harnesses
 # --------------------------------------------------------------------------------------------
-def compile_harness(src, out_name, extra_flags=None, sanitize=False, opt="-O1", timeout=600, defines=None, ndebug=True):
+def compile_harness(src, out_name, extra_flags=None, sanitize=False, opt="-O1", timeout=600, defines=None, ndebug=True,
+                    fallback_defines=None):
+    """fallback_defines: if the harness does not compile against the current tree, retry once with these extra defines (a
+    reduced-observation build, e.g. without probes of private members); the caller learns about it from
+    `compile_harness.last_fallback`."""
+    compile_harness.last_fallback = False
+    try:
+        return _compile_harness(src, out_name, extra_flags, sanitize, opt, timeout, defines, ndebug)
+    except MachineryError:
+        if not fallback_defines:
+            raise
+        compile_harness.last_fallback = True
+        return _compile_harness(src, out_name, extra_flags, sanitize, opt, timeout, list(defines or []) + list(fallback_defines), ndebug)
+
+
+def _compile_harness(src, out_name, extra_flags=None, sanitize=False, opt="-O1", timeout=600, defines=None, ndebug=True):
     os.makedirs(BUILD, exist_ok=True)
     out = os.path.join(BUILD, out_name)
     cmd = ["g++", "-std=c++20", opt, "-g", "-DCOCLS_VERIF", "-I" + os.path.join(VERIF, "rt/include"),
